@@ -6,9 +6,12 @@ proof  : lean/Pyunicorn/Properties/C18.lean (effective resistance = potential di
 tie    : the Lean model (exact Rat) against ResNetwork on the same generated networks
          (tolerance 1e-7; float32 paths: stated bound), against the compiled current-flow
          kernels at the kernel boundary on exact float32 inputs, and on update/query histories
+         (round 3) complex networks against the field model executed at the Gaussian rationals
+         (`cnet`), histories with a reassigned adjacency against the model's fresh history
 search : exact circuit solve in fractions.Fraction (grounded Laplacian), the circuit laws as
          identities on the implementation's own output, fresh twin objects after every
-         update_resistances, complex impedances against a direct linear solve
+         update_resistances, complex impedances against a direct linear solve, hubs of degree
+         128+ against an independent float64 solve
 """
 import contextlib
 import io
@@ -211,7 +214,15 @@ class Case:
         return 3e-6 if self.lowprec else TOL
 
     def array(self, res=None):
-        return to_np(self.res if res is None else res, self.kind, self.dtype)
+        a = to_np(self.res if res is None else res, self.kind, self.dtype)
+        lay = self.opts.get("layout")
+        if lay == "F":                  # Fortran (column-major) memory order
+            a = np.asfortranarray(a)
+        elif lay == "strided":          # non-contiguous view into a larger buffer
+            big = np.full((2 * a.shape[0], 2 * a.shape[1]), 77, dtype=a.dtype)
+            big[::2, ::2] = a
+            a = big[::2, ::2]
+        return a
 
     def build_from(self, RN, arr):
         kw = {}
@@ -269,6 +280,8 @@ def gen_cases(ctx, quick):
                 opts["edge_list"] = True
             if rng.random() < 0.3:
                 opts["adj_dtype"] = rng.choice([np.int64, np.uint8, bool, float])
+        if rng.random() < 0.2:
+            opts["layout"] = rng.choice(["F", "strided"])
         c = Case(n, A, draw_res(n, A, rng, kind), kind, tag, adj_from_res=rng.random() < 0.3,
                  dtype=rng.choice(["auto", "auto", "float64", "float32"]), opts=opts)
         out.append(c)
@@ -736,7 +749,9 @@ def run(ctx):
                 "random spanning tree + extra links on 3-"
                 + ("7" if quick else "9") + " nodes; symmetric positive resistances: unit, "
                 "integers 1..10, multiples of 1/8, powers of two x {1,3,5}; int64 and float64 "
-                "arrays; adjacency given or derived from the resistances; distinct = distinct "
+                "arrays (C / Fortran order / strided views); adjacency given or derived from the "
+                "resistances; complex128/complex64 impedance networks; histories with a "
+                "reassigned adjacency; weighted stars with a hub of degree 128+; distinct = distinct "
                 "(adjacency, resistances); non-trivial = at least 3 nodes and not all "
                 "resistances equal")
     ctx.trusted = common.DEFAULT_TRUSTED + [
@@ -768,6 +783,7 @@ def run(ctx):
         ctx.count("res:" + c.kind)
         ctx.count(f"n={c.n}")
         ctx.count("construct:" + ("from-resistances" if c.adj_from_res else "adjacency-given"))
+        ctx.count("layout:" + c.opts.get("layout", "C"))
         nontriv = c.n >= 3 and len({v for r in c.res for v in r if v != 0}) > 1
         ctx.case(c.canon(), nontriv, c.replay() if c.n <= 5 else None)
         m = parse_net(ans)
@@ -907,6 +923,8 @@ def run(ctx):
                              f"dtype={c.dtype} history={[enc_op(o)[:40] for o in ops]}"
                              for c, ops, k, x, q in hbad[:5]))
     ctx.extra["history_calls_compared"] = nsteps
+    reassign_stream(ctx, RN, rng, pool, 30 if quick else 300)
+    hub_stream(ctx, RN, rng, quick)
 
     # ------------------------------------------------------------------
     # D. complex impedances (implementation-only oracle)
@@ -915,6 +933,166 @@ def run(ctx):
     wrapper_stream(ctx, RN, rng)
     disconnected_stream(ctx, rng, 40 if quick else 400)
     stress_stream(ctx, RN, rng, 12 if quick else 120)
+
+
+def reassign_stream(ctx, RN, rng, pool, count):
+    """histories `queries; net.adjacency = A2 (any size); update_resistances(R2); queries`.
+    Lean: `reassign_then_update_fresh` — after the two calls the object answers as
+    `ResNetwork(R2, adjacency=A2)`; so the second phase is compared with the model's history on
+    (A2, R2) and with a fresh twin.  (Between the two calls the object is inconsistent and nothing
+    is asked.)"""
+    todo = []
+    for _ in range(count):
+        c1, c2 = rng.choice(pool), rng.choice(pool)
+        ops1 = [op for op in gen_history(c1, rng, rng.randrange(1, 7), echo=False) if op[0] != "U"]
+        if rng.random() < 0.5:          # every kind of query once: whatever is stored is filled
+            ops1 += [("A",), ("D",), ("V", 0), ("B", 0, 1), ("G", 0), ("N", 0), ("L", 0), ("K",)]
+        ops2 = gen_history(c2, rng, rng.randrange(3, 9), echo=False)
+        if c2.n > c1.n:                 # nodes that exist only after the enlargement
+            ops2 += [("V", c2.n - 1), ("E", 0, c2.n - 1), ("G", c2.n - 1), ("L", c2.n - 1),
+                     ("B", c2.n - 1, c2.n - 2)]
+        todo.append((c1, ops1, c2, ops2))
+    reqs = [" ".join(["hist", str(c2.n), enc_adj(c2.A), enc_mat(c2.res)] + [enc_op(op) for op in ops2])
+            for c1, ops1, c2, ops2 in todo]
+    answers = pdriver(ctx.pid, reqs)
+    rbad = []
+    nsteps = 0
+    for (c1, ops1, c2, ops2), ans in zip(todo, answers):
+        size = "same-size" if c1.n == c2.n else ("enlarged" if c2.n > c1.n else "shrunk")
+        ctx.count("reassign:" + size)
+        ctx.case(("reassign", c1.canon(), c2.canon(), [enc_op(o) for o in ops1 + ops2]), True)
+        exact = [p_fr(t) for t in ans.split(",")]
+        rep = c1.replay(history=[show_op(o) for o in ops1]
+                        + [["adjacency=", c2.A],
+                           ["update_resistances", [[enc_fr(v) for v in r] for r in c2.res],
+                            str(c2.array().dtype)]]
+                        + [show_op(o) for o in ops2])
+        try:
+            live = Live(c1, RN)
+            for op in ops1:
+                live.apply(op)
+            live.net.adjacency = np.array(c2.A, dtype=np.int8)
+            arr = c2.array()
+            quiet(live.net.update_resistances, arr)
+            live.c, live.n, live.arr, live.cur = c2, c2.n, arr, arr.copy()
+            for k, (op, q) in enumerate(zip(ops2, exact)):
+                x = live.apply(op)
+                nsteps += 1
+                if op[0] in ("U", "UA", "UR"):
+                    continue
+                kb = None
+                if op[0] in ("V", "B"):
+                    kb = f32_bound(quiet(live.net.get_admittance).tolist(),
+                                   quiet(live.net.get_R).tolist())
+                if not op_close(op, x, q, c2.n, live.mag, live.lowprec, kb):
+                    rbad.append((enc_adj(c1.A), enc_adj(c2.A), show_op(op), x, q))
+                fv = apply_op(live.twin(), op)
+                if not op_close(op, x, fv, c2.n, live.mag, live.lowprec, kb):
+                    ctx.fail({"kind": "history", "query": show_op(op)[0],
+                              "after": "adjacency-reassigned+update_resistances"},
+                             f"{show_op(op)[0]} after `adjacency = A2` ({size}) and "
+                             f"update_resistances(R2) returns {x}, a fresh ResNetwork(R2, "
+                             f"adjacency=A2) returns {fv}", dict(rep, observed=x, expected=fv,
+                                                                failing_call=show_op(op)))
+                    break
+        except Exception as ex:  # noqa
+            ctx.fail({"kind": "exception", "where": "reassign-history", "error": type(ex).__name__},
+                     f"history with a reassigned adjacency ({size}) raised "
+                     f"{type(ex).__name__}: {ex}", rep)
+    ctx.obligation(f"correspondence: Lean state machine after `reassign; update` "
+                   f"(reassign_then_update_fresh) == ResNetwork after `adjacency = A2; "
+                   f"update_resistances(R2)` on {len(todo)} histories, {nsteps} calls",
+                   "correspondence", not rbad, "\n".join(map(str, rbad[:5])))
+    ctx.extra["reassign_calls_compared"] = nsteps
+
+
+def hub_stream(ctx, RN, rng, quick):
+    """oracle only: hubs whose degree leaves int8 (127) — thorough: int16 products (181^2) —
+    against numpy evaluations of the definitions (float64 solve of the grounded Laplacian)."""
+    sizes = [rng.choice([129, 131, 140])] if quick else [130, 150, 200]
+    for n in sizes:
+        A = structured(n, "star")
+        for _ in range(4):              # a few links among the leaves: triangles at the hub
+            i, j = rng.sample(range(1, n), 2)
+            A[i][j] = A[j][i] = 1
+        res = np.zeros((n, n))
+        for i in range(n):
+            for j in range(i):
+                if A[i][j]:
+                    res[i, j] = res[j, i] = rng.choice([0.5, 1.0, 2.0, 4.0])
+        dt = rng.choice(["float64", "float32", "int8-adjacency-only"])
+        arr = res.astype(np.float32) if dt == "float32" else res.copy()
+        ctx.count(f"hub:n={n}")
+        ctx.count("hub:" + dt)
+        ctx.case(("hub", n, res.tobytes().hex()[:64], dt), True, {"hub": "star + 4 links", "n": n})
+        rep = {"n": n, "graph": "star with hub 0 plus links " + str(
+            [(i, j) for i in range(1, n) for j in range(1, i) if A[i][j]]), "dtype": dt,
+            "links_with_resistance": [[i, j, float(res[i, j])] for i in range(n) for j in range(i)
+                                      if A[i][j]],
+            "construct": "ResNetwork(res)" if dt == "float64"
+            else "ResNetwork(res, adjacency=int8 matrix)"}
+        tol = 3e-5 if dt == "float32" else 1e-8
+        try:
+            net = quiet(RN, arr, adjacency=np.array(A, dtype=np.int8)) \
+                if dt != "float64" else quiet(RN, arr)
+            Y = np.where(np.array(A) != 0, 1.0 / np.where(res == 0, 1, res), 0.0)
+            ad = quiet(net.admittive_degree)
+            lc = quiet(net.local_admittive_clustering)
+            deg = np.array(A).sum(axis=1)
+            tri = np.einsum("ij,ik,jk->i", Y, Y, Y)
+            lce = np.where(deg == 1, 0.0, tri / (Y.sum(axis=1) * np.where(deg == 1, 2, deg - 1)))
+            L = np.diag(Y.sum(axis=0)) - Y
+            G = np.zeros((n, n))
+            G[1:, 1:] = np.linalg.inv(L[1:, 1:])
+            pairs = [(0, 1), (1, 2), (n - 1, n - 2), (0, n - 1)] + \
+                [tuple(rng.sample(range(n), 2)) for _ in range(6)]
+            er = [float(quiet(net.effective_resistance, a, b)) for a, b in pairs]
+            ere = [float(G[a, a] + G[b, b] - G[a, b] - G[b, a]) for a, b in pairs]
+            Rimpl = quiet(net.get_R)
+            Ad = Y
+            # the pseudo-inverse from the independent solve: centred grounded inverse
+            C = np.eye(n) - 1.0 / n
+            Rm = C @ G @ C
+            nodes = [0, 1, n - 1]
+            vc = [float(quiet(net.vertex_current_flow_betweenness, i)) for i in nodes]
+            vce = []
+            for i in nodes:
+                tot = 0.0
+                for t in range(n):
+                    if t == i:
+                        continue
+                    ss = [s_ for s_ in range(t) if s_ != i]
+                    # |R[i,s]-R[j,s] + R[j,t]-R[i,t]| for all s (rows) and j (columns)
+                    M = np.abs(Rm[i, ss][:, None] - Rm[:, ss].T + Rm[:, t][None, :] - Rm[i, t])
+                    tot += 0.5 * (M @ Ad[i]).sum()
+                vce.append(float(2.0 * tot / (n * (n - 1))))
+            kb = f32_bound(Ad.tolist(), Rm.tolist())
+        except Exception as ex:  # noqa
+            ctx.fail({"kind": "hub", "law": "exception"},
+                     f"ResNetwork on a hub network raised {type(ex).__name__}: {ex}", rep)
+            continue
+        if np.abs(ad - Y.sum(axis=0)).max() > tol * np.abs(Y).max() * n:
+            ctx.fail({"kind": "hub", "law": "admittive_degree=sum"},
+                     f"admittive_degree() of a hub of degree {n - 1} differs from its defining sum",
+                     rep)
+        if np.abs(lc - lce).max() > tol * max(np.abs(lce).max(), 1e-12):
+            k = int(np.abs(lc - lce).argmax())
+            ctx.fail({"kind": "hub", "law": "local_admittive_clustering=sum"},
+                     f"local_admittive_clustering()[{k}] = {lc[k]} on a network with a hub of degree "
+                     f"{n - 1}, defining sum {lce[k]}", dict(rep, node=k))
+        if any(abs(x - e) > max(tol, 1e-7) * 8 for x, e in zip(er, ere)):
+            ctx.fail({"kind": "hub", "law": "effective_resistance=solve"},
+                     f"effective resistances {er} on a hub network, direct solve {ere}",
+                     dict(rep, pairs=pairs))
+        if np.abs(Rimpl - Rm).max() > max(tol, 1e-7) * np.abs(Rm).max():
+            ctx.fail({"kind": "hub", "law": "get_R=pseudo-inverse"},
+                     f"get_R() differs from the pseudo-inverse of the admittance Laplacian by "
+                     f"{np.abs(Rimpl - Rm).max()} (largest entry of the pseudo-inverse: "
+                     f"{np.abs(Rm).max()}, of get_R(): {np.abs(Rimpl).max()})", rep)
+        if any(abs(x - e) > kb for x, e in zip(vc, vce)):
+            ctx.fail({"kind": "hub", "law": "vcfb=sum"},
+                     f"vertex_current_flow_betweenness of nodes {nodes} = {vc}, defining sums on "
+                     f"the independently solved pseudo-inverse {vce}", rep)
 
 
 def wrapper_stream(ctx, RN, rng):
@@ -972,8 +1150,12 @@ def wrapper_stream(ctx, RN, rng):
     if not netc.flagComplex or Z.shape != (5, 5):
         ctx.fail({"kind": "wrapper", "factory": "SmallComplexNetwork"},
                  "SmallComplexNetwork() is not a complex 5-node network", {})
+    wbad = []
     complex_check(ctx, RN, rng, Ac, Z, "SmallComplexNetwork()",
-                  make=lambda: quiet(RN.SmallComplexNetwork))
+                  make=lambda: quiet(RN.SmallComplexNetwork),
+                  model=common.driver(ctx.pid, [cnet_request(Ac, Z)])[0], cbad=wbad)
+    ctx.obligation("correspondence: Lean field model == ResNetwork.SmallComplexNetwork() "
+                   "(9 observables)", "correspondence", not wbad, str(wbad[:2]))
 
 
 def disconnected_stream(ctx, rng, count):
@@ -1298,7 +1480,35 @@ def stress_stream(ctx, RN, rng, count):
                       "observed": obs, "fresh": exp})
 
 
+def cnet_request(A, Z):
+    Z = np.asarray(Z).astype(complex)
+    n = len(A)
+    re = [[Fr(float(Z[i, j].real)) for j in range(n)] for i in range(n)]
+    im = [[Fr(float(Z[i, j].imag)) for j in range(n)] for i in range(n)]
+    return f"cnet {n} {enc_adj(A)} {enc_mat(re)} {enc_mat(im)}"
+
+
+def parse_cnet(ans):
+    """answer of the driver's `cnet` request -> dict of complex numpy values (None if refused)"""
+    if ans.startswith("undefined") or ans == "bad-request":
+        return None
+    d = dict(kv.split("=", 1) for kv in ans.split("|"))
+    out = {}
+    for k, v in d.items():
+        re, im = v.split("&")
+        if ";" in re or k in ("adm", "lap", "R", "er"):
+            a, b = p_mat(re), p_mat(im)
+            out[k] = np.array([[complex(float(x), float(y)) for x, y in zip(r1, r2)]
+                               for r1, r2 in zip(a, b)])
+        elif k in ("avg", "gc"):
+            out[k] = complex(float(Fr(re)), float(Fr(im)))
+        else:
+            out[k] = np.array([complex(float(x), float(y)) for x, y in zip(p_vec(re), p_vec(im))])
+    return out
+
+
 def complex_stream(ctx, RN, rng, count):
+    todo = []
     for _ in range(count):
         n = rng.randrange(2, 7)
         kind = rng.choice(["path", "bundle+direct", "random", "random", "cycle"])
@@ -1315,11 +1525,67 @@ def complex_stream(ctx, RN, rng, count):
         if rng.random() < 0.25:        # extreme but exact common scale
             Z = Z * 2.0 ** rng.choice([-40, -20, 20, 40])
         zdt = rng.choice([complex, complex, np.complex64])
-        complex_check(ctx, RN, rng, A, Z.astype(zdt), kind)
+        todo.append((A, Z.astype(zdt), kind))
+    answers = pdriver(ctx.pid, [cnet_request(A, Z) for A, Z, _ in todo])
+    cbad = []
+    for (A, Z, kind), ans in zip(todo, answers):
+        complex_check(ctx, RN, rng, A, Z, kind, model=ans, cbad=cbad)
+    ctx.obligation(f"correspondence: Lean field model at the Gaussian rationals (Model/CircuitK) == "
+                   f"complex ResNetwork: admittance, Laplacian, R, effective impedance, average, "
+                   f"closeness, admittive degree, local / global clustering ({len(todo)} networks, "
+                   f"complex128 and complex64)", "correspondence", not cbad,
+                   "\n".join(map(str, cbad[:5])))
+    ctx.extra["complex_networks_compared"] = len(todo)
 
 
-def complex_check(ctx, RN, rng, A, Z, kind, make=None):
-    """one complex-impedance network (built by `make()` if given, e.g. a public factory)"""
+def clust_scale(Y, deg):
+    """per node: the magnitude against which an error of the admittive clustering is judged —
+    sum of the *absolute* triple products over |ad (d-1)|, times the cancellation factor of the
+    admittive degree (sum |Y_ij| / |sum Y_ij|); equals |lc_i| when nothing cancels"""
+    Y = np.asarray(Y, dtype=complex)
+    n = len(Y)
+    aY = np.abs(Y)
+    tri = np.einsum("ij,ik,jk->i", aY, aY, aY)
+    ad = Y.sum(axis=0)
+    out = np.zeros(n)
+    for i in range(n):
+        if deg[i] != 1 and abs(ad[i]) > 0:
+            out[i] = tri[i] / (abs(ad[i]) * (deg[i] - 1)) * (aY[:, i].sum() / abs(ad[i]))
+    return out
+
+
+def complex_model_diff(net, n, m, low, deg):
+    """names of the observables of a complex network that differ from the exact model values"""
+    bad = []
+
+    def cmp(name, x, tol, scale):
+        # complex64 caller arrays: `1./resistances[i, j]` is a single-precision division
+        tol = max(300 * tol, 3e-6) if low else tol
+        x = np.asarray(x, dtype=complex)
+        q_ = np.asarray(m[name], dtype=complex)
+        if x.shape != q_.shape or not np.all(np.isfinite(x)) or \
+                np.abs(x - q_).max() > tol * scale:
+            bad.append(name)
+    ys = np.abs(m["adm"]).max()
+    rs = np.abs(m["R"]).max()
+    cmp("adm", quiet(net.get_admittance), 1e-12, ys)
+    cmp("lap", quiet(net.admittance_lapacian), 1e-12, ys)
+    cmp("R", quiet(net.get_R), 1e-7, rs)
+    cmp("er", [[quiet(net.effective_resistance, a, b) for b in range(n)] for a in range(n)],
+        1e-7, rs)
+    cmp("avg", quiet(net.average_effective_resistance), 1e-7, rs)
+    cmp("ercc", [quiet(net.effective_resistance_closeness_centrality, a) for a in range(n)],
+        1e-6, np.abs(m["ercc"]).max())
+    cmp("ad", quiet(net.admittive_degree), 1e-9, ys)
+    cs = max(clust_scale(m["adm"], deg).max(), ys * ys / n)
+    cmp("lc", quiet(net.local_admittive_clustering), 1e-9, cs)
+    cmp("gc", quiet(net.global_admittive_clustering), 1e-9, cs)
+    return bad
+
+
+def complex_check(ctx, RN, rng, A, Z, kind, make=None, model=None, cbad=None):
+    """one complex-impedance network (built by `make()` if given, e.g. a public factory);
+    `model`: the Lean field model's answer for it (correspondence, recorded in `cbad`)"""
     for _once in (0,):
         n = len(A)
         low = Z.dtype == np.complex64
@@ -1343,6 +1609,14 @@ def complex_check(ctx, RN, rng, A, Z, kind, make=None):
         except Exception as ex:  # noqa
             fail("exception", f"complex ResNetwork raised {type(ex).__name__}: {ex}")
             continue
+        if model is not None:
+            m = parse_cnet(model)
+            if m is None:
+                cbad.append(("model refuses", enc_adj(A), Z.tolist(), model[:60]))
+            else:
+                d = complex_model_diff(net, n, m, low, np.array(A).sum(axis=1))
+                if d:
+                    cbad.append((d, enc_adj(A), Z0.tolist(), str(Z0.dtype)))
         Y = np.where(np.array(A) != 0, 1.0 / np.where(Z == 0, 1, Z), 0)
         L = np.diag(Y.sum(axis=1)) - Y
         G = np.zeros((n, n), dtype=complex)
@@ -1371,10 +1645,12 @@ def complex_check(ctx, RN, rng, A, Z, kind, make=None):
         if np.abs(ad - Y.sum(axis=0)).max() > 1e-9 * lf * ys:
             fail("admittive_degree=sum", "complex admittive degree differs from its defining sum")
         deg = np.array(A).sum(axis=1)
+        cscale = clust_scale(Y, deg)
         for i in range(n):
             tri = sum(Y[i, j] * Y[i, k] * Y[j, k] for j in range(n) for k in range(n))
             e = 0 if deg[i] == 1 else tri / (Y[i].sum() * (deg[i] - 1))
-            if abs(lc[i] - e) > 1e-9 * lf * max(abs(e), ys * ys / n):
+            # judged against the sum of absolute terms (complex products cancel), see clust_scale
+            if abs(lc[i] - e) > 1e-9 * lf * max(abs(e), ys * ys / n, cscale[i]):
                 fail("local_admittive_clustering=sum",
                      f"complex local_admittive_clustering()[{i}] = {lc[i]}, defining sum {e}")
         # scaling by a complex factor through update_resistances, after the store was filled
